@@ -129,6 +129,18 @@ func runOne(p Property, job *Job, known []*KnownFinding, cache *Cache) (res *Res
 				res.Harness = e.Msg
 			case ErrTooManyDraws:
 				res.Harness = "run exceeded the draw cap"
+			case TaskPanic:
+				if e.InLibrary {
+					v := &Violation{Property: PublicID(job.Prop), Oracle: "panic", Class: e.Site, Msg: fmt.Sprintf("panic in library code (task %d): %v\n%s", e.Task, e.Value, e.Stack)}
+					if k := ctx.matchKnown(v); k != nil {
+						ctx.Known[k.Key]++
+					} else {
+						res.Violation = v
+					}
+					ctx.Event("PANIC %s", e.Site)
+				} else {
+					res.Harness = fmt.Sprintf("panic in harness code of task %d at %s: %v\n%s", e.Task, e.Site, e.Value, e.Stack)
+				}
 			default:
 				in, site, st := classifyPanic(3)
 				if in {
